@@ -73,10 +73,17 @@ def resend_progress(ctx, rep, ver, mod, pmod):
         t = b.blocks[bi]["term"]
         if t["k"] == "switch":
             e, neg = strip_not(ir.term_operand(bi, t["o"]))
-            if e[0] == "var" and e[1] in cfl:
+            if t.get("dty") == "bool":
                 tests.append((bi, neg, e))
+    # keep the tests whose operand is read by at least two switches (exactly the same value: same
+    # expression, same epoch, same call site)
+    cnt = {}
+    for _, _, e in tests:
+        cnt[e] = cnt.get(e, 0) + 1
+    grp = [e for e, n_ in cnt.items() if n_ >= 2]
+    tests = [(bi, neg, e) for bi, neg, e in tests if grp and e == grp[0]]
     acyclic = True
-    same_version = len(set(strip_sites(e) for _, _, e in tests)) <= 1 and len(set(e[3] for _, _, e in tests)) <= 1
+    same_version = bool(tests)
     for tv in (True, False):
         removed = set()
         if same_version:
